@@ -29,10 +29,10 @@ PROPS = {
  "C08": dict(engine="E2 cache-seq", src="e2_cache_seq", variants=["asan"], level="exploration",
    seconds={"quick": 45, "thorough": 600},
    rule="cases = operation sequences as in C07 with limit 1..8 and key alphabets larger than the limit, deadlines straddling the simulated clock, value sizes up to beyond shared memory, long fill/clear cycles on the process_shared back-end; "
-        "stats and every fetch compared with a model implementing 'expired first, then LRU tail'; after each clear() of the shared segment max_available() must return to its baseline. "
+        "stats and every fetch compared with a model implementing 'expired first, then LRU tail'; after each clear() of the shared segment the free shared memory must be back at its baseline (minus a slack of 64 page headers for a different page structure); 'storm' operations issue bursts of stores whose long keys exhaust the segment while a node is being built. "
         "first 2*16^3 (quick) / 2*16^5 (thorough) indices enumerate all short sequences for limit 1 and 2. non-trivial = at least one eviction was forced by the limit and a later fetch hit; distinct = distinct (op-shape, backend, limit) hash",
    fault_keys=["memory_pressure_events", "tick"],
-   probe_keys=["evict_expired", "evict_lru", "leak_checks", "memory_pressure_events", "key_as_trigger", "ambiguous_states"],
+   probe_keys=["evict_expired", "evict_lru", "leak_checks", "alloc_storms", "memory_pressure_events", "key_as_trigger", "ambiguous_states"],
    components=E2_COMPONENTS,
    assumptions=["same as C07", "eviction order is observed through later fetches (values are unique per store), not by inspecting internals"],
    category="exploration",
